@@ -476,4 +476,6 @@ def run(cx):
     cx.guard(r4_subgraphs)
     cx.guard(r5_sibling_drivers)
     cx.guard(r5b_late_dependency)
+    from . import c01
+    cx.borrow(c01.r5_order_provenance, "C01.R5", "C04.R5", "single-pass, incremental and pooled drivers evaluate each sub-graph through dr.run with its own broker", mods)
     cx.guard(r6_set_iteration, kinds, mods)
